@@ -435,6 +435,9 @@ func (x *Exec) specCall(s *State, e *CExpr, sc *specCtx) *Value {
 			return intV(ev(0).T)
 		case "dec":
 			return intV(Mul(ev(0).T, ONE))
+		case "decstr":
+			// decstr(s): the decimal denoted by a string (the value NewDecFromStr yields; uninterpreted for unknown strings)
+			return intV(App("dec.of_str", SInt, ev(0).T))
 		case "abs":
 			return intV(Abs(ev(0).T))
 		case "min":
